@@ -497,7 +497,7 @@ def prec_cases(patterns: list[str], max_size: int, fmts: list[str]) -> list[dict
 def run(ctx: common.Ctx) -> None:
     _run_main(ctx)
     if not os.environ.get("VERIF_C17_ONLY"):
-        compose_stream(ctx, int((120 if ctx.tier == "quick" else 3000) * float(os.environ.get("VERIF_SCALE", "1"))) or 6)
+        compose_stream(ctx, int((120 if ctx.tier == "quick" else 1000) * float(os.environ.get("VERIF_SCALE", "1"))) or 6)
 
 
 def _run_main(ctx: common.Ctx) -> None:
@@ -630,8 +630,8 @@ def _run_main(ctx: common.Ctx) -> None:
         ctx.floor_evaluations = int(30000 * f)
         ctx.floor_nontrivial = int(5000 * f)
     else:
-        ctx.floor_evaluations = int(500000 * f)
-        ctx.floor_nontrivial = int(90000 * f)
+        ctx.floor_evaluations = int(300000 * f)
+        ctx.floor_nontrivial = int(50000 * f)
     if part_missing:
         ctx.inconc("part-incomplete:" + ",".join(part_missing))
         ctx.floor_evaluations = 10 ** 9
